@@ -151,6 +151,18 @@ impl<'a> Gen<'a> {
             2 => {
                 if self.in_fun && self.cfg.locals { // (re)initialise a local, possibly inside a loop
                     let name = if !self.locals.is_empty() && self.r.bool() { self.tags.push("local-reinit"); self.r.pick(&self.locals.clone()).clone() } else { let n = format!("l{}", self.locals.len()); n };
+                    if self.r.chance(40) {
+                        // the same `local` opcode executed on every iteration of a loop: the slot must be overwritten, not
+                        // appended, and the value read afterwards is the latest one
+                        self.tags.push("local-in-loop");
+                        let (lim, start) = (self.r.range(1, 4), self.r.range(-1, 1));
+                        self.w(&lim.to_string()); self.w(&start.to_string()); self.w("do"); self.w("I");
+                        if self.r.bool() { self.expr(1); self.w("+"); }
+                        self.w("local"); self.w(&name); self.w(&name); self.w("drop"); self.w("loop");
+                        self.locals.push(name.clone());
+                        if self.r.bool() { self.w(&name); self.w("drop"); }
+                        return;
+                    }
                     self.expr(d.min(2)); self.w("local"); self.w(&name);
                     self.locals.push(name);
                 } else { self.expr(d.min(2)); self.w("drop"); }
@@ -207,14 +219,27 @@ impl<'a> Gen<'a> {
                 } else { self.expr(1); self.w("drop"); }
             }
             12 | 13 => {
-                if top && self.cfg.defs { self.def(d); } else if top && self.cfg.vars { let v = self.new_var(); self.expr(d.min(2)); self.w("var"); self.w(&v); self.vars.push(v); self.tags.push("var-def"); }
+                if top && self.cfg.defs { self.def(d); } else if top && self.cfg.vars { self.var_def(d); }
                 else { self.expr(1); self.w("drop"); }
             }
             14 => {
-                if top && self.cfg.vars { let v = self.new_var(); self.expr(d.min(2)); self.w("var"); self.w(&v); self.vars.push(v); self.tags.push("var-def"); }
+                if top && self.cfg.vars { self.var_def(d); }
                 else { self.expr(1); self.w("drop"); }
             }
             _ => { self.expr(d.min(2)); self.expr(1); self.w("swap drop drop"); }
+        }
+    }
+
+    /// `<expr> var v`: a fresh name, or (25%) a name that exists already — the new variable shadows the old one, and
+    /// words compiled before keep using the old cell
+    fn var_def(&mut self, d: usize) {
+        if !self.vars.is_empty() && self.r.chance(40) {
+            let v = self.r.pick(&self.vars.clone()).clone();
+            self.expr(d.min(2)); self.w("var"); self.w(&v); self.tags.push("var-redeclare");
+            // observe both cells: through a word compiled earlier (if any reads a variable) and directly
+            self.w(&v); self.w("drop");
+        } else {
+            let v = self.new_var(); self.expr(d.min(2)); self.w("var"); self.w(&v); self.vars.push(v); self.tags.push("var-def");
         }
     }
 
@@ -293,5 +318,27 @@ impl<'a> Gen<'a> {
 }
 
 pub fn gen_program(r: &mut Rng, cfg: &GenCfg) -> (String, Vec<&'static str>) {
+    // now and then one of the shapes the grammar reaches rarely
+    if r.chance(8) { return (shape(r), vec!["shape"]); }
     Gen::new(r, cfg.clone()).program()
+}
+
+/// shapes the grammar reaches rarely: redeclared variables and redefined words seen through words compiled
+/// earlier, a `local` re-executed by a loop (the slot is overwritten, and rewinding restores the old value),
+/// shadowed locals, tagged values stored over equal untagged ones
+pub fn shape(r: &mut Rng) -> String {
+    let (a, b, n) = (r.range(-9, 99), r.range(-9, 99), r.range(0, 5));
+    match r.below(11) {
+        0 => format!("{} var x : getx x ; {} var x getx x", a, b),
+        1 => format!("0 var acc : add acc + ! acc ; {} add 0 var acc {} ! acc 1 add acc", a, b),
+        2 => format!(": f {} ; : g f ; : f {} ; g f", a, b),
+        3 => format!(": f {} 0 do I local x x loop ; f", n),
+        4 => format!(": f {} local x {} 0 do x I + local x loop x ; f", a, n),
+        5 => format!(": cnt 0 begin 1 + dup local k k {} >= until ; cnt", n),
+        6 => format!("{} var x {} var y : sum x y + ; sum {} var x sum x", a, b, n),
+        7 => format!(": f local p {} 0 do p I * local q q loop p ; {} f", n, a),
+        8 => format!("{} var x x {{ 1 2 }} with-tags ! x x tags x {} ! x x", a, a),
+        9 => format!("{} 0 do I 1 == if break then I loop {} 0 do {} 0 do I J + 2 == if break then loop loop 99", n + 1, n, n + 1),
+        _ => format!("{} var z z ! z z {} ! z z", a, a),
+    }
 }
